@@ -148,6 +148,7 @@ fn convert_triple<'a>(
 /// those whose predicate can not be split into a namespace and an XML name,
 /// or is a term reserved by the RDF/XML syntax,
 /// and those whose literal contains characters not allowed in XML.
+/// Blank node identifiers are also made valid `rdf:nodeID`s.
 pub struct RdfXmlGuard<TF>(pub TF);
 
 impl<TF> TriplesFormatter for RdfXmlGuard<TF>
@@ -187,7 +188,26 @@ where
                 )));
             }
         }
-        self.0.format(triple)
+        // blank node labels may start with a digit, but rdf:nodeID must be an XML name;
+        // the underscore of other labels is doubled to keep the mapping one-to-one
+        fn node_id(id: &str) -> std::borrow::Cow<'_, str> {
+            if id.starts_with(|c: char| c.is_ascii_digit() || c == '_') {
+                format!("_{id}").into()
+            } else {
+                id.into()
+            }
+        }
+        let mut triple = *triple;
+        let (s_id, o_id);
+        if let Subject::BlankNode(BlankNode { id }) = triple.subject {
+            s_id = node_id(id);
+            triple.subject = BlankNode { id: &s_id }.into();
+        }
+        if let RioTerm::BlankNode(BlankNode { id }) = triple.object {
+            o_id = node_id(id);
+            triple.object = BlankNode { id: &o_id }.into();
+        }
+        self.0.format(&triple)
     }
 }
 
